@@ -522,11 +522,17 @@ def measure_accuracy(ctx: Ctx, pending):
             K_ = Consts(E)
             q_ = math.sqrt(1 - K_.e2)
             A_ = math.sqrt((q_ * math.hypot(xyz[0], xyz[1]) / K_.a) ** 2 + (xyz[2] / K_.a) ** 2)
-            if near_:
+            if near_ or abs(float(ref["exact"][2])) <= 1e5 + 1e-3:
                 # the hypothesis of the proved bound (theorems near_surface_accuracy / near_of_height): |A - q| <= 0.0162
                 ctx.count("tangential-offset:near:" + ("inside-proved-box" if abs(A_ - q_) <= 0.0162 else "OUTSIDE-proved-box"))
                 if abs(A_ - q_) > 0.0162:
                     gdisagree(ctx, "near_of_height: a point within 100 km has |A - q| <= 0.0162", case, 0.0162, abs(A_ - q_))
+            else:
+                # the hypothesis of the proved far bound (theorems far_field_accuracy / A_range_of_height): q <= A <= 8.86
+                ok_ = q_ <= A_ <= 8.86
+                ctx.count("tangential-offset:far:" + ("inside-proved-range" if ok_ else "OUTSIDE-proved-range"))
+                if not ok_:
+                    gdisagree(ctx, "A_range_of_height: a point with 100 km < h <= 50 000 km has q <= A <= 8.86", case, [q_, 8.86], A_)
             worst["R_near" if near_ else "R_far"] = max(worst["R_near" if near_ else "R_far"], abs(R_mp))
             if not abs(abs(R_mp) - rt_mp) <= 1e-18 + 1e-12 * rt_mp:
                 gdisagree(ctx, "closed form R of the round-trip error (theorem roundtrip_error_closed_form) vs mpmath round trip", case, abs(R_mp), rt_mp)
@@ -570,7 +576,7 @@ def measure_accuracy(ctx: Ctx, pending):
 # --------------------------------------------------------------------------------------------------
 # ellipsoid attribute flow
 
-OPS = ["convert", "sliceRow", "fancy", "subset", "addDelta", "deepcopy", "posOf", "emptyFrom", "insert"]
+OPS = ["convert", "sliceRow", "fancy", "subset", "addDelta", "deepcopy", "posOf", "emptyFrom", "insert", "retag", "poke"]
 CTOR_OPS = {"convert", "sliceRow", "subset", "addDelta", "deepcopy", "posOf", "emptyFrom", "insert"}
 
 
@@ -659,6 +665,23 @@ def apply_op(rng, op, obj, cls, force=None):
         x = obj
         x -= delta
         return x, v
+    if op in ("retag", "poke"):
+        # first a conversion is evaluated (and cached by the object), then the object is changed in place
+        try:
+            if cls == "position":
+                getattr(obj, "llh" if obj.system == "trs" else "trs")
+            else:
+                getattr(obj, "kepler" if obj.system == "trs" else "trs")
+        except Exception:  # noqa: BLE001
+            pass
+        if op == "retag":
+            name = force.split("@")[1] if (force and force.startswith("retag@")) else rng.choice(list(ellipsoid._ELLIPSOIDS))
+            obj.ellipsoid = ellipsoid.get(name)
+            return obj, f"retag@{name}"
+        if obj.system != "trs" or np.isnan(np.asarray(obj, dtype=float)).any():
+            return obj.view(), "view"
+        obj[...] = np.asarray(obj, dtype=float) + 7.0
+        return obj, "poke"
     if op == "deepcopy":
         return copy.deepcopy(obj), "deepcopy"
     if op == "posOf":
@@ -701,7 +724,7 @@ def run_sequence(ctx, rng, cls0, ell, ops, ctor_kinds, forced=None, nrows=None, 
     case = {"fn": "ellipsoid flow", "class": cls0, "ellipsoid": ell, "ops": ops, "rows": nrows, "ndim": int(obj.ndim)}
     forced = list(forced or [])
     cls = cls0
-    done, variants, wire = [], [], []
+    done, variants, wire, answered = [], [], [], []
     failed = False
     for op in ops:
         if op == "posOf" and (cls == "position" or obj.system != "trs"):
@@ -713,6 +736,7 @@ def run_sequence(ctx, rng, cls0, ell, ops, ctor_kinds, forced=None, nrows=None, 
         try:
             before_vals = np.asarray(obj, dtype=float).copy()
             before_sys = obj.system
+            prev_tag = getattr(obj, "ellipsoid", None)
             res, variant = apply_op(rng, op, obj, cls, forced.pop(0) if forced else None)
         except Exception as e:
             gviolate(ctx, f"raises:flow:{op}:{type(e).__name__}", f"{op} on a {cls} created on {ell} raised {type(e).__name__}: {e}", {**case, "done": done, "variants": variants, "op": op})
@@ -721,7 +745,12 @@ def run_sequence(ctx, rng, cls0, ell, ops, ctor_kinds, forced=None, nrows=None, 
         mop = machine_op(op, variant, ctor_kinds)
         done.append(mop)
         variants.append(variant)
-        if mop == "addDelta":
+        if mop == "retag":
+            wire.append(f"rt:{variant.split('@')[1]}")
+            ctx.count("flow:retag:" + ("other" if getattr(prev_tag, "name", None) != variant.split("@")[1] else "same") + "-ellipsoid")
+        elif mop == "poke":
+            wire.append("pk")
+        elif mop == "addDelta":
             form, ref_name = variant.split("@")
             ref_ell = getattr(getattr(obj, "ellipsoid", None), "name", ell) if ref_name == "self" else ref_name
             wire.append(f"wd:{0 if '-' in form else 1}:{1 if form.startswith('d') else 0}:{ref_ell if ref_ell in ellipsoid._ELLIPSOIDS else ell}")
@@ -730,15 +759,20 @@ def run_sequence(ctx, rng, cls0, ell, ops, ctor_kinds, forced=None, nrows=None, 
             wire.append(f"un:{mop}")
         got = getattr(res, "ellipsoid", None)
         got_name = getattr(got, "name", repr(type(got).__name__))
-        prev = getattr(obj, "ellipsoid", None)
+        prev = ellipsoid.get(variant.split("@")[1]) if variant.startswith("retag@") else prev_tag
         # ---- oracle: the property itself — the operation hands on the ellipsoid of the object it was applied to
         if got is not prev and got != prev:
             gviolate(ctx, f"ellipsoid-lost:{cls}:{op}", f"a {cls} on {getattr(prev, 'name', '?')} (created on {ell}) is on {got_name} after {variant}; history {variants}", {**case, "done": list(done), "variants": list(variants)})
-        if op == "convert" and cls == "position" and not np.isnan(before_vals).any() and prev == E0:
+        if op == "convert" and cls == "position" and not np.isnan(before_vals).any() and hasattr(prev, "e2"):
+            # the conversion of the values the object has now, on the ellipsoid it carries now (created with / assigned last)
             f = T.trs2llh if before_sys == "trs" else T.llh2trs
-            want = np.asarray(f(before_vals, E0), dtype=float).reshape(np.asarray(res).shape)
-            if not np.allclose(np.asarray(res, dtype=float), want, rtol=0, atol=1e-9, equal_nan=True):
-                gviolate(ctx, "convert-evaluated-on-other-ellipsoid", f"conversion {variant} of a position created on {ell} after {variants[:-1]} is not the conversion on {ell} (off by {float(np.nanmax(np.abs(np.asarray(res) - want))):.3e})", {**case, "done": list(done), "variants": list(variants)})
+            want = np.asarray(f(before_vals, prev), dtype=float).reshape(np.asarray(res).shape)
+            fresh = bool(np.allclose(np.asarray(res, dtype=float), want, rtol=0, atol=1e-9, equal_nan=True))
+            answered.append(prev.name if fresh else "?")
+            if not fresh:
+                gviolate(ctx, "convert-evaluated-on-other-ellipsoid", f"conversion {variant} of a position (created on {ell}, now on {prev.name}) after {variants[:-1]} is not the conversion of its current values on {prev.name} (off by {float(np.nanmax(np.abs(np.asarray(res) - want))):.3e})", {**case, "done": list(done), "variants": list(variants)})
+        elif op == "convert":
+            answered.append(None)
         if op == "posOf":
             cls = "position"
         obj = res
@@ -760,6 +794,10 @@ def run_sequence(ctx, rng, cls0, ell, ops, ctor_kinds, forced=None, nrows=None, 
     impl = f"{cls} {got_name}"
     if " ".join(toks[:2]) != impl:
         gdisagree(ctx, "ellipsoid flow machine over the regenerated constructor-call table", {**case, "done": done, "variants": variants}, ans, impl)
+    # the conversions as the model answers them (cache included) against what the real conversions were evaluated on
+    model_ans = toks[2].split(",") if len(toks) > 2 and toks[2] else []
+    if len(model_ans) == len(answered) and any(a_ is not None and a_ != m_ for a_, m_ in zip(answered, model_ans)):
+        gdisagree(ctx, "conversions answered on (hanswered, cache-aware) vs the real conversions", {**case, "done": done, "variants": variants}, model_ans, answered)
 
 
 def check_flow(ctx: Ctx):
@@ -772,6 +810,8 @@ def check_flow(ctx: Ctx):
     seqs = []
     run_corpus(ctx, "C05", lambda c: seqs.append((c["class"], c["ellipsoid"], list(c["ops"]))) if c.get("kind") == "flow" and c.get("ellipsoid") in names else None)
     seqs += [(cls, ell, [op]) for cls in ("position", "posvel") for ell in names for op in OPS if not (op == "posOf" and cls == "position")]
+    # convert / re-tag or write / convert again, on every ellipsoid
+    seqs += [(cls, ell, ops_) for cls in ("position", "posvel") for ell in names for ops_ in (["retag", "convert"], ["poke", "convert"], ["convert", "retag", "convert"])]
     for _ in range(n):
         cls = rng.choice(["position", "posvel"])
         ops = [rng.choice(OPS) for _ in range(rng.randint(1, 6))]
@@ -1158,7 +1198,7 @@ def replay(payload):
     if fn == "ellipsoid flow" and c.get("ellipsoid") in ellipsoid._ELLIPSOIDS:
         kinds = tuple(ctx.driver.ask1("c05 getitemkinds").split(","))
         # the stored machine ops are re-applied with the stored variants on a fresh object of the same class / ellipsoid
-        ops = [("fancy" if v in ("view", "view(1d)", "copy", "copy.copy", "list", "mask") else o) for o, v in zip(c.get("done", c["ops"]), c.get("variants", []))] or c["ops"]
+        ops = [("fancy" if v in ("view", "view(1d)", "copy", "copy.copy", "list", "mask") else ("retag" if v.startswith("retag@") else ("poke" if v == "poke" else o))) for o, v in zip(c.get("done", c["ops"]), c.get("variants", []))] or c["ops"]
         run_sequence(ctx, rng, c["class"], c["ellipsoid"], ops, kinds, forced=c.get("variants"), nrows=c.get("rows"), first_row=(c.get("ndim") == 1 and c.get("rows", 1) > 1))
     elif fn == "arithmetic" and c.get("ellipsoid") in ellipsoid._ELLIPSOIDS:
         arith_one(ctx, rng, c["family"], c["form"], c["ellipsoid"], c["ref_ellipsoid"], c["ref_ellipsoid2"], c["shape"], c["same_system"])
